@@ -41,4 +41,4 @@ try: old=json.load(open(p))
 except Exception: old={}
 old.update(meta); json.dump(old,open(p,"w"),indent=1)
 PY
-for d in $(ls -d /verif/work/e2-* 2>/dev/null); do rm -rf "$d"; done
+for d in $(ls -d /verif/work/e2-* 2>/dev/null); do [ "$(cat "$d/.owner" 2>/dev/null)" = "$W" ] && rm -rf "$d"; done
